@@ -14,6 +14,7 @@ import (
 	"time"
 
 	"encoding/json"
+	"github.com/rkosegi/yaml-toolkit/common"
 	"github.com/rkosegi/yaml-toolkit/dom"
 	"gopkg.in/yaml.v3"
 )
@@ -208,6 +209,36 @@ func c01Text(t string, isJSON bool) Case {
 		}
 		coq = "CRound " + gGval(normGeneric(ctl)) + " " + gGval(normGeneric(back))
 		desc["decoded"] = normGeneric(ctl)
+		// the same through the codecs chosen by file suffix, and List.AsSlice / the node encoder on every list
+		suffix := map[bool]string{true: "doc.json", false: "doc.yaml"}[isJSON]
+		if pn := guard(func() {
+			d2, e2 := dom.Builder().FromReader(strings.NewReader(t), common.DefaultFileDecoderProvider(suffix))
+			if e2 != nil || !reflect.DeepEqual(d2.AsMap(), ctl) {
+				fail = append(fail, "decoding through common.DefaultFileDecoderProvider("+suffix+") differs from decode(t)")
+			}
+			var b1, b2 bytes.Buffer
+			encFn := dom.DefaultYamlEncoder
+			if isJSON {
+				encFn = dom.DefaultJsonEncoder
+			}
+			e3 := d.Serialize(&b1, dom.DefaultNodeEncoderFn, encFn)
+			e4 := d.Serialize(&b2, dom.DefaultNodeEncoderFn, common.DefaultFileEncoderProvider(suffix))
+			if e3 != nil || e4 != nil || !bytes.Equal(b1.Bytes(), b2.Bytes()) {
+				fail = append(fail, "serialising through common.DefaultFileEncoderProvider("+suffix+") differs from the default encoder")
+			}
+			if !reflect.DeepEqual(dom.DefaultNodeEncoderFn(d), any(ctl)) {
+				fail = append(fail, "DefaultNodeEncoderFn(d) differs from decode(t)")
+			}
+			for k, c := range d.Children() {
+				if l, ok := c.(dom.List); ok {
+					if !reflect.DeepEqual(l.AsSlice(), ctl[k]) {
+						fail = append(fail, "List.AsSlice of "+k+" differs from decode(t)["+k+"]")
+					}
+				}
+			}
+		}); pn != "" {
+			fail = append(fail, "panic in the by-suffix codecs: "+pn)
+		}
 	}
 	return Case{Kind: "text", Desc: desc, Coq: coq, Fail: fail, Nontrivial: err == nil && len(ctl) > 0, Key: t}
 }
